@@ -147,6 +147,9 @@ func NetTimeout() time.Duration {
 
 // NetHeartbeatInterval 返回网络心跳间隔
 func NetHeartbeatInterval() time.Duration {
+	if verifHeartbeat > 0 {
+		return verifHeartbeat
+	}
 	return time.Second * 30
 }
 
